@@ -573,8 +573,21 @@ impl Shape {
                             return other.clone();
                         }
                     }
+                    // Mark this (constraint, shape) pair as in progress. Meeting it
+                    // again before it is resolved means the constraint refers to
+                    // itself without consuming any structure (`constraint t = t | "";`),
+                    // so that path cannot match and must not be expanded again.
+                    let slot = seen.len();
+                    seen.push((
+                        cref.val.clone(),
+                        other.clone(),
+                        Shape::TypeErr(
+                            cref.pos.clone(),
+                            format!("Recursive constraint '{}' does not match", cref.val),
+                        ),
+                    ));
                     let result = other.narrow_cached(&expanded, symbol_table, seen);
-                    seen.push((cref.val.clone(), other.clone(), result.clone()));
+                    seen[slot].2 = result.clone();
                     result
                 } else {
                     Shape::TypeErr(
